@@ -8,7 +8,9 @@ patch=$1; tier=$2; shift 2
 name=$(basename "$(dirname "$patch")")-$(basename "$patch" .diff)
 out=/tmp/mut/$name; rm -rf "$out"; mkdir -p "$out/repo"
 (cd "${VERIF_REPO_SRC:-/repo}" && git ls-files -z | xargs -0 cp --parents -t "$out/repo") || exit 2
-(cd "$out/repo" && git init -q . 2>/dev/null; git apply "$patch") || { echo "$name: patch does not apply"; exit 2; }
+# (git apply first; where later fix: commits have only moved or touched the
+# context of the lines a patch changes, patch(1) with fuzz still places it)
+(cd "$out/repo" && git init -q . 2>/dev/null; git apply "$patch" 2>/dev/null || patch -p1 -F3 -s --no-backup-if-mismatch < "$patch" >/dev/null 2>&1) || { echo "$name: patch does not apply"; exit 2; }
 # a snapshot of the harness sources, so that edits made while a long
 # evaluation runs do not leak into it
 cp -r "${VERIF_SIM_SRC:-/verif/sim}" "$out/sim" && export VERIF_SIM="$out/sim"
